@@ -330,6 +330,20 @@ class Interface(object):
         the used objects.
         """
 
+        # faults live in the target namespace (see add_method). settle that
+        # before any class is registered: a fault that's first reached as the
+        # parent of another fault would otherwise be filed (prefix, imports)
+        # under the namespace it was declared with and moved later.
+        for s in self.services:
+            for method in s.public_methods.values():
+                faults = method.faults
+                if faults is None or not self.check_method(method):
+                    continue
+                if not isinstance(faults, (list, tuple)):
+                    faults = (faults,)
+                for fault in faults:
+                    fault.__namespace__ = self.get_tns()
+
         # populate types
         for s in self.services:
             logger.debug("populating %s types...", s.get_internal_key())
